@@ -6,7 +6,7 @@ line one level deeper; the tree recovered from the indentation differs from the 
 tree or from the tree of the HTML rendering of the same abbreviation."""
 import re
 
-from .. import core, gen_abbr, outparse, probes, ref_tree
+from .. import core, gen_abbr, hostile, outparse, probes, ref_tree
 
 ID = 'C15'
 RULE = ('cases = (abbreviation from a generated written tree, syntax in haml/pug/slim, indent string); trees up to depth 4 with groups, climbs, repeaters, '
@@ -290,7 +290,7 @@ class Mon:
     def __init__(self, ctx):
         import emmet
         self.ctx = ctx
-        self.expand = emmet.expand
+        self.expand = hostile.wrap(emmet.expand, ctx)
 
     def check(self, abbr, exp, syntax, indent):
         ctx = self.ctx
